@@ -317,7 +317,11 @@ def run(ctx):
             key = local_ref(ctors[0]["a"][0])
             if key is not None:
                 calls = _norm_calls_on(f, key["d"])
-                ok = any(nm == "make_canonical" and f.line_of(n) < f.line_of(ctors[0]) for nm, n in calls)
+                canon_calls = [n for nm, n in calls if nm == "make_canonical"]
+                # the canonicalisation is on EVERY path from the key's definition to the CPPFile (S11-C17: it was put under
+                # `if (canonical.is_local())`, so an absolute but non-canonical command-line spelling keyed _parsed_files raw)
+                defs = [y for y in f.walk() if y.get("k") == "decls" and any(dd.get("d") == key["d"] for dd in y["d"])]
+                ok = bool(canon_calls) and bool(defs) and not G.reaches_avoiding(f, defs[0], canon_calls, ctors[0])
         ctx.ob("R17.4", "%s|canonical-key" % name, ok, f.loc(ctors[0]) if ctors else f.loc(), "the CPPFile key is canonicalised before use")
     # CPPFile ordering on _filename only
     for op in ("operator<", "operator=="):
